@@ -51,7 +51,7 @@ import (
 
 func main() {
 	ev.Main("C04", "fault_enumeration",
-		"files (single-zip, multi-zip via forced max zip size, periodic content with repeated chunk refs, same content under two names, just under/over the 512 KiB threshold) are written with perkeep's file writer and uploaded through blobserver.Receive in seeded orders (schema blob first/middle/last, chunks shuffled, duplicate uploads) into blobpacked over inject-wrapped memory small/large/meta (some cases: localdisk small/large + leveldb meta); also several distinct files per store (unrelated, or one extending the other so that they share chunks; sequential or chunks-first), upload orders whose last schema upload misses a blob (never sent / sent later / schema only first), client removes inside the history (chunk before the pack with or without re-upload, packed blobs after the pack + re-upload), and files of 17-35 MiB under the production 16 MiB zip limit (crash points: the pack's writes only); every lower-layer call index k of upload+packing is a crash point (freeze), every distinct (durable state, acked set) is restarted under none/fast/full recovery and with meta wiped, audited against the reference map, then removes (a few loose and packed blobs, or all / all but one blob of one zip) + restart + re-upload + restart; whole files served before a restart must be served after it; the durable states reached by restart-without-recovery + re-upload (in the same-content cases also without the removes in between: the second name packs the interrupted content again, large then holds two zips for one whole-file part) are restarted under fast/full recovery and with meta wiped; hand-written file schemas with a part shorter than the blob it names or one blob named with two part sizes (single zip and forced multi-zip); the same content under 2-3 names, or two unrelated files, with the file schema blobs uploaded at the same time and the packs held at their zip stores until all got there (no crash points, final state through every recovery); a case is distinct per (history, crash state, recovery)",
+		"files (single-zip, multi-zip via forced max zip size, periodic content with repeated chunk refs, same content under two names, just under/over the 512 KiB threshold) are written with perkeep's file writer and uploaded through blobserver.Receive in seeded orders (schema blob first/middle/last, chunks shuffled, duplicate uploads) into blobpacked over inject-wrapped memory small/large/meta (some cases: localdisk small/large + leveldb meta); also several distinct files per store (unrelated, or one extending the other so that they share chunks; sequential or chunks-first), upload orders whose last schema upload misses a blob (never sent / sent later / schema only first), client removes inside the history (chunk before the pack with or without re-upload, packed blobs after the pack + re-upload), and files of 17-35 MiB under the production 16 MiB zip limit (crash points: the pack's writes only); every lower-layer call index k of upload+packing is a crash point (freeze), every distinct (durable state, acked set) is restarted under none/fast/full recovery and with meta wiped, audited against the reference map, then removes (a few loose and packed blobs, or all / all but one blob of one zip) + restart + re-upload + restart; whole files served before a restart must be served after it; the durable states reached by restart-without-recovery + re-upload (in the same-content cases also without the removes in between: the second name packs the interrupted content again, large then holds two zips for one whole-file part) are restarted under fast/full recovery and with meta wiped; hand-written file schemas with a part shorter than the blob it names or one blob named with two part sizes (single zip and forced multi-zip); the same content under 2-3 names, or two unrelated files, with the file schema blobs uploaded at the same time and the packs held at their zip stores until all got there (no crash points, final state through every recovery); files spanning 11 (thorough: 11, 12, 25) zips (equal chunks, forced max zip size with room for one chunk), whole-file reads at several offsets at every step and after every recovery; per durable state, fast and full recovery are compared on whole-file reads (what full recovery serves, fast recovery must serve); a case is distinct per (history, crash state, recovery)",
 		run)
 }
 
@@ -109,6 +109,9 @@ type stateEntry struct {
 	DupZips bool   // large holds two zips for one (whole file, part index)
 	From    string // derived: phase of the crash state it descends from
 	key     string
+	// stage1: per recovery variant, what OpenWholeRef answered per whole-file ref right after
+	// the first restart of this state (site.wholeSeen); compared across the recovery modes
+	stage1 map[string]map[blob.Ref]string
 }
 
 type caseCtx struct {
@@ -620,6 +623,14 @@ func (c *caseCtx) runA() {
 		if c.zipsA >= 3 {
 			r.Note("file_class", "three-or-more-zips")
 		}
+		if c.zipsA >= 11 {
+			// the part rows of the whole file are not in numeric order in the sorted index
+			r.Note("file_class", "eleven-or-more-zips")
+			r.Note("many_zips", fmt.Sprint(c.zipsA))
+			if wholeDone[f0.WholeRef] {
+				r.Note("many_zips", "whole-file-row-written")
+			}
+		}
 		if len(f0.Content) <= packThreshold+4096 {
 			r.Note("file_class", "just-over-threshold")
 		}
@@ -945,6 +956,14 @@ func (c *caseCtx) auditState(st *stateEntry, variant string, deep, direct bool) 
 		inst.close()
 		return
 	}
+	if !direct && s.wholeSeen != nil {
+		c.mu.Lock()
+		if st.stage1 == nil {
+			st.stage1 = map[string]map[blob.Ref]string{}
+		}
+		st.stage1[variant] = s.wholeSeen
+		c.mu.Unlock()
+	}
 
 	if w.big() {
 		// tens of MiB per audit: the later stages only for the complete pack, without re-upload
@@ -1213,6 +1232,54 @@ func (c *caseCtx) selectDerived(nDup, nOther int) {
 	c.derivedM = nil
 }
 
+// compareRecoveries judges the two recovery modes against each other, per durable state: both
+// rebuild the meta index from the same zips ("FastRecovery populates the blobpacked index, without
+// erasing any existing one; FullRecovery erases the existing index, then rebuilds it"), after which
+// whole-file reads are served identically.  A whole file that the store serves right after a full
+// recovery of a state must therefore be served right after a fast recovery of the same state
+// (fast on the existing index vs full; fast on a wiped index vs full on a wiped index).  Only this
+// direction is judged: the existing index may legitimately know more than the zips do.
+func (c *caseCtx) compareRecoveries() {
+	r, w := c.r, c.w
+	for _, st := range append(append([]*stateEntry{}, c.order...), c.derived...) {
+		for _, pair := range [][2]string{{"fast", "full"}, {"zips-alone-fast", "zips-alone-full"}} {
+			fast, full := st.stage1[pair[0]], st.stage1[pair[1]]
+			if fast == nil || full == nil {
+				continue
+			}
+			for _, ref := range sortedRefs(setOf(full, "served")) {
+				r.Eval(1)
+				r.Count("fast_vs_full_wholeref_comparisons", 1)
+				r.Note("fast_vs_full_compared", pair[0]+"/"+st.Phase)
+				if !st.wholeRows[ref] {
+					// the pack had not (durably) written its final whole-file row: the recovery wrote it
+					r.Note("fast_vs_full_compared", pair[0]+"/final-row-rebuilt-by-full-recovery")
+					r.Count("fast_vs_full_final_row_rebuilt", 1)
+				}
+				if fast[ref] == "served" {
+					continue
+				}
+				s := &site{r: r, w: w, Variant: pair[0], Phase: st.Phase, Stage: "restart", K: st.ks[0]}
+				s.extra = func() map[string]any {
+					return map[string]any{"crash_points_with_this_state": st.ks, "compared_with": pair[1], "derived_state": st.Derived,
+						"final_whole_row_in_the_crash_state": st.wholeRows[ref], "zips": len(st.sn.Large), "meta_rows": len(st.sn.Meta)}
+				}
+				s.viol("wholeref/recovery-modes-disagree/"+s.tail(), fmt.Sprintf("after %s recovery of this durable state OpenWholeRef(%v) serves the whole file at every probed offset; after %s recovery of the same state it does not (%s)", pair[1], ref, pair[0], map[string]string{"notexist": "not found", "mixed": "errors or wrong bytes at some offsets", "": "not probed"}[fast[ref]]))
+			}
+		}
+	}
+}
+
+func setOf(m map[blob.Ref]string, val string) map[blob.Ref]bool {
+	out := map[blob.Ref]bool{}
+	for k, v := range m {
+		if v == val {
+			out[k] = true
+		}
+	}
+	return out
+}
+
 // ------------------------------------------------------------------ cases
 
 func genCases(r *ev.Run) []caseSpec {
@@ -1456,6 +1523,34 @@ func genCasesR4(r *ev.Run) []caseSpec {
 	return out
 }
 
+// genCasesR5 lists the round-5 cases (PRNG and numbering of their own: h..).
+//
+// A file spanning many zips: n equal chunks under a forced maximum zip size that has room for
+// one chunk (plus the file schema blob and the manifest) but not for two, so that the pack stores
+// n zips.  From 11 zips on the whole-file part rows w:<wholeref>:<n> are no longer in numeric
+// order in the sorted index (…:1, …:10, …:2).
+func genCasesR5(r *ev.Run) []caseSpec {
+	rng := r.Rand("cases-r5")
+	var out []caseSpec
+	id := 0
+	kib := 1 << 10
+	many := func(n int, order string) {
+		id++
+		size := 540*kib + rng.Intn(120*kib)
+		unit := size / n
+		out = append(out, caseSpec{ID: fmt.Sprintf("h%02d-many-zips", id), Class: "many-zips", MaxZip: unit * 8 / 5, Order: order, Loose: 2, Seed: rng.Int63(),
+			Files: []fileSpec{{Name: fmt.Sprintf("spans-%d-zips.bin", n), Size: size, Content: fmt.Sprintf("parts:many:%d", n)}}})
+	}
+	many(11, "schema-last")
+	if !r.Thorough() {
+		return out
+	}
+	many(12, "schema-first")
+	many(25, "schema-last")
+	many(11, "schema-middle")
+	return out
+}
+
 // ------------------------------------------------------------------ run
 
 func run(r *ev.Run) {
@@ -1479,9 +1574,10 @@ func run(r *ev.Run) {
 	r.Assume("files of tens of MiB (production zip limit): crash points are the writes of the pack only, live audits after those writes only, the range-fetch grid covers a seeded sample of 48 blobs, and only the completely packed state goes through the remove and re-restart stages")
 	r.Assume("crash points with identical durable state and acknowledged set (e.g. consecutive reads) are restarted once")
 	r.Assume("derived states (restart without recovery + removes + re-upload of a crash state) are deduplicated by durable state and a seed-determined selection per case (those with duplicate zips first) is restarted under recovery; whole files that OpenWholeRef served completely before a restart must be served after it")
+	r.Assume("recovery modes compared per durable state: a whole file that OpenWholeRef serves (every probed offset, exact bytes) right after a full recovery of a state must be served right after a fast recovery of the same state (fast vs full on the existing index; fast vs full on a wiped index); the other direction is not judged (the existing index may know more than the zips)")
 	r.Assume("histories with concurrent uploads have no replayable lower-call order: no crash points, their final state is restarted in every recovery variant; the 20 s bound on the zip-store rendezvous only gives up the schedule")
 
-	specs := append(genCases(r), genCasesR4(r)...)
+	specs := append(append(genCases(r), genCasesR4(r)...), genCasesR5(r)...)
 	var cases []*caseCtx
 	var cmu sync.Mutex
 	t0 := time.Now()
@@ -1610,6 +1706,9 @@ func run(r *ev.Run) {
 		fmt.Printf("PROGRESS property=C04 recovery phase %v done, %.1fs\n", mp.variants, time.Since(t0).Seconds())
 	}
 	blobpacked.SetRecovery(blobpacked.NoRecovery)
+	for _, c := range cases {
+		c.compareRecoveries()
+	}
 
 	if os.Getenv("VERIF_ONLY") != "" {
 		r.Assume("VERIF_ONLY replay of selected cases: the coverage requirements of a full run are not applied")
@@ -1647,6 +1746,13 @@ func run(r *ev.Run) {
 	r.Require("part_shape", "two-sizes-short-first")
 	r.Require("parallel_packs", "overlapped-at-zip-store")
 	r.Require("file_class", "duplicate-zips-by-concurrent-packs")
+	// round 5 families
+	r.Require("file_class", "eleven-or-more-zips")
+	r.Require("many_zips", "11", "whole-file-row-written")
+	r.Require("fast_vs_full_compared", "fast/whole-row", "fast/final-row-rebuilt-by-full-recovery", "fast/complete", "zips-alone-fast/complete")
+	if r.Thorough() {
+		r.Require("many_zips", "12", "25")
+	}
 	if r.Thorough() {
 		r.Require("part_shape", "short-mid", "short-first", "short-last", "short-by-one", "short-twice", "two-sizes-full-first")
 	}
